@@ -166,6 +166,29 @@ def check_taint(ctx):
     ctx.extra["numpy_scalar_sites"] = n_sites
 
 
+def hermitian_flag_obligations(ctx, rule: str):
+    """Shared with C07/C08: `.dagger` of a MatrixFactoryGate returns the gate itself when it is flagged
+    is_hermitian, so every flagged table entry must equal its conjugate transpose identically."""
+    if not self_check():
+        ctx.undecided(rule, "exppoly:self-check", "the normal-form engine failed its embedded controls")
+        return
+    n = 0
+    for g in gate_table(ctx.repo):
+        if not g.is_hermitian or g.factory is None or not isinstance(g.num_qubits, int):
+            continue
+        where = f"src/orquestra/quantum/circuits/_builtin_gates.py:{g.lineno}"
+        try:
+            m = _fold(ctx, g, [EP.var(p) for p in _param_vars(g)])
+        except Undecided as e:
+            ctx.undecided(rule, f"{BUILTIN}:{g.ident}:flag", f"cannot fold {g.ident}: {e}", where)
+            continue
+        ctx.analysed(g.factory)
+        diff = m.first_difference(m.adjoint()) if m.rectangular() and m.shape[0] == m.shape[1] else (0, 0, "non-square", "")
+        n += 1
+        ctx.check(diff is None, rule, f"{BUILTIN}:{g.ident}:flag", f"{g.ident} is flagged self-adjoint and equals its conjugate transpose identically, so returning it as its own dagger is sound", f"{g.ident} is flagged is_hermitian but entry [{diff[0]}][{diff[1]}] = {diff[2]!r} differs from the conjugate transpose's {diff[3]!r}: `{g.ident}(...).dagger` returns the gate itself, which is not its inverse" if diff else "", where)
+    return n
+
+
 def run(ctx):
     repo = ctx.repo
     if not self_check():
